@@ -36,14 +36,14 @@ Inductive fref := Delayed | Compiled (cmap : list nat).
 
 (* a reference to a list object: the empty lists of __init__, or the lists thread t created
    in its _compile (a thread compiles at most once per lookup) *)
-Inductive ref := RInit | ROwn (t : nat).
+Inductive lref := RInit | ROwn (t : nat).
 
 Inductive pc :=
 | P0
 | P1 (f : fref)
-| P2 (f : fref) (rv : ref)
-| P3 (f : fref) (rv pat : ref)
-| PCall (f : fref) (rv pat cv : ref)
+| P2 (f : fref) (rv : lref)
+| P3 (f : fref) (rv pat : lref)
+| PCall (f : fref) (rv pat cv : lref)
 | PAcq | PChk | PC1 | PC2 | PC3
 | PGen (todo : list ev) (cmap : list nat)
 | PRel
@@ -52,7 +52,7 @@ Inductive pc :=
 Record heapcell := { h_rv : list N; h_pat : list (list piece); h_conv : list convspec }.
 Definition cell0 : heapcell := {| h_rv := []; h_pat := []; h_conv := [] |}.
 
-Record state := { s_slot : fref; s_rv : ref; s_pat : ref; s_conv : ref;
+Record state := { s_slot : fref; s_rv : lref; s_pat : lref; s_conv : lref;
                   s_lock : option nat; s_pc : nat -> pc; s_heap : nat -> heapcell }.
 
 Definition state0 : state :=
@@ -86,11 +86,11 @@ Definition T0 : tables := snd (compile cinst cmulti roots).
 Definition script : list ev :=
   map AppRv (t_rvs T0) ++ map AppPat (t_pats T0) ++ map AppConv (t_convs T0).
 
-Definition deref (st : state) (r : ref) : heapcell :=
+Definition deref (st : state) (r : lref) : heapcell :=
   match r with RInit => cell0 | ROwn t => s_heap st t end.
 
 (* calling a compiled finder with the three lists as they are at the call *)
-Definition call (st : state) (cmap : list nat) (rv pat cv : ref) (path : list str) : outcome :=
+Definition call (st : state) (cmap : list nat) (rv pat cv : lref) (path : list str) : outcome :=
   run_finder true
     (map (remap (cmap_fun cmap)) ast0,
      {| t_rvs := h_rv (deref st rv); t_pats := h_pat (deref st pat);
@@ -171,7 +171,7 @@ Definition step (st : state) (i : nat) : state :=
   | PDone _ => st
   end.
 
-Definition run (sched : list nat) : state := fold_left step sched state0.
+Definition run_sched (sched : list nat) : state := fold_left step sched state0.
 
 (* the answer of a lookup made on its own *)
 Definition serial (i : nat) : outcome := Ret (dfs_level cinst cmulti roots (paths i) []).
